@@ -17,7 +17,7 @@ ASSUMPTIONS = ['SGR sequence = ESC [ [0-9;]* m; other CSI sequences are text',
                'grey (not judged): empty/non-decimal tokens, colour args > 255, 38/48/58 + bad selector, '
                'CSI bodies with bytes outside 0x30-0x3f / private-parameter m sequences']
 MIN_EVAL = 300
-CASES = {'quick': 500, 'thorough': 9000}
+CASES = {'quick': 5000, 'thorough': 54000}
 
 _DIG = re.compile(r'[0-9;]*\Z')
 
